@@ -100,15 +100,17 @@ Integral == [j12 |-> [level |-> 1, power |-> 1],
 BSources == Nfs \cup {0}                    \* 0 = random positive b coefficients
 C13_Cells ==
   {[clause |-> cl, name |-> j, bsrc |-> b, dir |-> d] :
-     cl \in {"zero", "local", "taylor"}, j \in DOMAIN Integral, b \in BSources, d \in Dirs}
+     cl \in {"zero", "local", "taylor", "trunc"}, j \in DOMAIN Integral, b \in BSources, d \in Dirs}
   \* the cubic roots are quantified over the N3LO beta polynomial of the physical theory only
   \cup {[clause |-> cl, name |-> "roots", bsrc |-> b, dir |-> "-"] : cl \in {"root", "vieta"}, b \in Nfs}
-C13_InDomain(c) == c.clause = "taylor" => Integral[c.name].level >= 2  \* j12 has no expansion
+C13_InDomain(c) == c.clause \in {"taylor", "trunc"} => Integral[c.name].level >= 2  \* j12 has no expansion
 C13_Req(c) ==
   CASE c.clause = "zero" -> Dec(12, "rounding")
     [] c.clause = "local" -> Dec(7, "local-derivative-1e-7")
     [] c.clause = "taylor" ->                        \* exact - expanded = O(a^level)
          LET n == Integral[c.name].level IN Exp(100 * n - 35, 9000, "order-of-vanishing")
+    [] c.clause = "trunc" -> Dec(11, "rounding")     \* expanded = the Taylor polynomial of the integrand, integrated: all terms up to
+                                                    \* a^(level - power) of 1/(1 + b1 a + ...) and no others
     [] c.clause \in {"root", "vieta"} -> Dec(10, "rounding")
 
 (* ================================ C23 Spectral ================================ *)
